@@ -139,10 +139,19 @@ func (x *Explorer) doAppend(st *State, s0, t0 Val) Val {
 			arr := st.heapGet(name, ArrSort(ArrSort(sorts[i])))
 			row := Select(arr, s.Arr)
 			trow := Select(arr, t.Arr)
+			old := row
 			for j := 0; j < k; j++ {
 				row = Store(row, Add(Add(s.Off, s.Len), IntLit(int64(j))), Select(trow, Add(t.Off, IntLit(int64(j)))))
 			}
 			st.heapSet(name, Store(arr, ref, row))
+			if strings.HasSuffix(name, "#len") && k == 1 {
+				// running total of element lengths (sumLen): the old prefix keeps its sum, the new
+				// element adds its length
+				sum := func(r, n *Term) *Term { return UF("sumlen", SInt, r, s.Off, n) }
+				st.addFact(Eq(sum(row, s.Len), sum(old, s.Len)))
+				st.addFact(Eq(sum(row, Add(s.Len, IntLit(1))), Add(sum(old, s.Len), Select(trow, t.Off))))
+				st.addFact(Eq(sum(old, IntLit(0)), IntLit(0)))
+			}
 		}
 		return VSlice{Arr: ref, Off: s.Off, Len: nl, Cap: c, Elem: s.Elem}
 	}
@@ -553,6 +562,16 @@ func (x *Explorer) libModel(st *State, f *Frame, ins ssa.Instruction, key string
 	case "time.After", "time.Tick":
 		return VInt{T: st.freshInt("timer_ch")}, true
 	case "fmt.Sprintf", "fmt.Sprint", "fmt.Sprintln":
+		if key == "fmt.Sprintf" {
+			if ft := asInt(args[0]); ft.IsLit() && e.strByID[ft.Int.Int64()] == "%d" {
+				// decimal rendering of one integer: a function of the value
+				va := args[1].(VSlice)
+				valArr := st.heapGet("[]"+e.typeKey(types.NewInterfaceType(nil, nil))+"#val", ArrSort(ArrSort(SInt)))
+				r := UF("decstr", SInt, Select(Select(valArr, va.Arr), va.Off))
+				st.addFact(Ge(UF("strlen", SInt, r), IntLit(1)))
+				return VInt{T: r}, true
+			}
+		}
 		r := st.freshInt("sprintf")
 		minLen := 0
 		if key == "fmt.Sprintf" {
